@@ -144,6 +144,12 @@ Definition wasabiti_d_t1 (b0_shift rb1 t1 b1_nom gamma offsets tp trec : R) : R 
   - (exp (- trec / t1) * (trec / (t1 * t1)))
   * (1 - 2 * (PI * b1 * gamma * tp) ^ 2 * sinc (tp * sqrt ((b1 * gamma) ^ 2 + da ^ 2)) ^ 2).
 
+(* d/d b0_shift and d/d rb1: the saturation-recovery factor times the WASABI line-shape derivative with c = 1, d = 2 *)
+Definition wasabiti_d_b0 (b0_shift rb1 t1 b1_nom gamma offsets tp trec : R) : R :=
+  sr_code 1 t1 trec * wasabi_d_b0 b0_shift rb1 1 2 b1_nom gamma offsets tp.
+Definition wasabiti_d_rb1 (b0_shift rb1 t1 b1_nom gamma offsets tp trec : R) : R :=
+  sr_code 1 t1 trec * wasabi_d_rb1 b0_shift rb1 1 2 b1_nom gamma offsets tp.
+
 (* ---- shapes -------------------------------------------------------------------------------------------------- *)
 (* mrpro.utils.reshape.unsqueeze_right / unsqueeze_left: reshape to shape + n ones / n ones + shape;
    a negative n gives an empty tuple of ones in Python, which is what truncated subtraction on nat gives at the call sites *)
@@ -173,29 +179,20 @@ Definition seqparam_shape (sshape pshape : list nat) : list nat :=
   unsqueeze_right sshape (length pshape - length sshape).
 
 (* ---- shapes as the implementation computes them ---------------------------------------------------------------- *)
-(* x.reshape( *x.shape, *(n*(1,)) ) is called without any argument for a 0-dim tensor and n = 0: TypeError *)
-Definition unsqueeze_right_impl (s : list nat) (n : nat) : option (list nat) :=
-  match s, n with
-  | [], O => None
-  | _, _ => Some (unsqueeze_right s n)
-  end.
-Fixpoint unsq_all (l : list (list nat)) (rank : nat) : option (list (list nat)) :=
+(* unsqueeze_right = x.reshape(( *x.shape, *(n*(1,)) )) (one tuple argument; total, also for a 0-dim tensor with n = 0) *)
+Fixpoint unsq_all (l : list (list nat)) (rank : nat) : list (list nat) :=
   match l with
-  | [] => Some []
-  | s :: r => match unsqueeze_right_impl s (rank - length s), unsq_all r rank with
-              | Some s', Some r' => Some (s' :: r') | _, _ => None end
+  | [] => []
+  | s :: r => unsqueeze_right s (rank - length s) :: unsq_all r rank
   end.
-Inductive shape_res : Type := ShapeOk (s : list nat) | BroadcastError | ReshapeTypeError.
+Inductive shape_res : Type := ShapeOk (s : list nat) | BroadcastError.
 (* tshape: shape of the time-like tensor (non-empty); p0: shape of the FIRST forward parameter, whose rank the code uses for
    every unsqueeze_right count; pbc: broadcast shape of all forward parameters; seqs: shapes of the attributes that are
    unsqueezed without a time axis (transient steady state model: repetition_time, m0_scaling_preparation,
    delay_after_preparation; 0-dim when given as python floats) *)
 Definition model_shape_impl (tshape p0 pbc : list nat) (seqs : list (list nat)) : shape_res :=
-  match unsqueeze_right_impl tshape (length p0 - (length tshape - 1)), unsq_all seqs (length p0) with
-  | Some t, Some ss =>
-      match fold_left (fun acc s => match acc with Some a => broadcast a s | None => None end) ss (broadcast t pbc) with
-      | Some r => ShapeOk r
-      | None => BroadcastError
-      end
-  | _, _ => ReshapeTypeError
+  match fold_left (fun acc s => match acc with Some a => broadcast a s | None => None end) (unsq_all seqs (length p0))
+                  (broadcast (unsqueeze_right tshape (length p0 - (length tshape - 1))) pbc) with
+  | Some r => ShapeOk r
+  | None => BroadcastError
   end.
